@@ -3,15 +3,20 @@ package main
 import (
 	"errors"
 	"fmt"
+	"io"
+	"net"
+	"os"
 	"sort"
 	"strconv"
 	"strings"
+	"sync"
 	"time"
 
 	"github.com/samaritan-proxy/samaritan/config"
 	"github.com/samaritan-proxy/samaritan/controller"
 	"github.com/samaritan-proxy/samaritan/host"
 	"github.com/samaritan-proxy/samaritan/pb/common"
+	pbhc "github.com/samaritan-proxy/samaritan/pb/config/hc"
 	"github.com/samaritan-proxy/samaritan/pb/config/protocol"
 	"github.com/samaritan-proxy/samaritan/pb/config/service"
 	"github.com/samaritan-proxy/samaritan/proc"
@@ -153,7 +158,122 @@ func aliasRun(n, k int) string {
 	})
 }
 
+// c08.hcoff   a real TCP processor with a health check (20 ms interval, thresholds 1) in front of two backends, one of which is down and
+// marked unhealthy; the configuration is replaced by the same one without a health check (a valid configuration: a service may have none);
+// the backend comes back; four connections are made.
+//
+//	-> update=<ok|error|panic> cfg=<the processor's configuration has no health check: 1|0> served=<connections relayed to each backend>
+func c08HcOff() string {
+	up, err := hx.NewBackend()
+	if err != nil {
+		return "sockerr"
+	}
+	defer up.Close()
+	down, err := hx.NewBackend()
+	if err != nil {
+		return "sockerr"
+	}
+	downAddr := down.Addr
+	down.Close()
+	echo := func(b *hx.Backend) {
+		for c := range b.Conns {
+			go func(c net.Conn) { io.Copy(c, c); c.Close() }(c)
+		}
+	}
+	go echo(up)
+	ct := 300 * time.Millisecond
+	idle := time.Minute
+	mk := func(withHC bool) *service.Config {
+		cfg := &service.Config{
+			Listener:        &service.Listener{Address: &common.Address{Ip: "127.0.0.1", Port: 0}},
+			ConnectTimeout:  &ct,
+			IdleTimeout:     &idle,
+			Protocol:        protocol.TCP,
+			ProtocolOptions: &service.Config_TcpOption{TcpOption: &protocol.TCPOption{}},
+		}
+		if withHC {
+			cfg.HealthCheck = &pbhc.HealthCheck{Interval: 20 * time.Millisecond, Timeout: 100 * time.Millisecond, FallThreshold: 1, RiseThreshold: 1}
+		}
+		return cfg
+	}
+	c08seq++
+	name := fmt.Sprintf("verif-c08h-%d-%d", os.Getpid(), c08seq)
+	p, err := proc.New(name, mk(true), []*host.Host{host.New(up.Addr), host.New(downAddr)})
+	if err != nil {
+		return "procerr " + err.Error()
+	}
+	defer hx.DropScopes("service." + strings.Replace(name, ".", "_", -1) + ".")
+	if err := p.Start(); err != nil {
+		return "procerr"
+	}
+	defer p.Stop()
+	time.Sleep(2 * time.Millisecond)
+	for i := 0; i < 400 && p.Address() == ""; i++ {
+		time.Sleep(time.Millisecond)
+	}
+	time.Sleep(150 * time.Millisecond) // several check rounds: the backend that is down is marked unhealthy
+	upd := "ok"
+	func() {
+		defer func() {
+			if r := recover(); r != nil {
+				upd = "panic"
+			}
+		}()
+		if err := p.OnSvcConfigUpdate(mk(false)); err != nil {
+			upd = "error"
+		}
+	}()
+	cfgOff := 0
+	if p.Config().GetHealthCheck() == nil {
+		cfgOff = 1
+	}
+	// the backend comes back on its address
+	ln, err := net.Listen("tcp", downAddr)
+	if err != nil {
+		return "sockerr"
+	}
+	defer ln.Close()
+	var mu sync.Mutex
+	back := 0
+	go func() {
+		for {
+			c, err := ln.Accept()
+			if err != nil {
+				return
+			}
+			mu.Lock()
+			back++
+			mu.Unlock()
+			go func(c net.Conn) { io.Copy(c, c); c.Close() }(c)
+		}
+	}()
+	time.Sleep(100 * time.Millisecond)
+	before := up.Accepted()
+	okConns := 0
+	for i := 0; i < 4; i++ {
+		c, err := net.DialTimeout("tcp", p.Address(), time.Second)
+		if err != nil {
+			continue
+		}
+		c.Write([]byte("x"))
+		c.SetReadDeadline(time.Now().Add(time.Second))
+		b := make([]byte, 1)
+		if _, err := io.ReadFull(c, b); err == nil {
+			okConns++
+		}
+		c.Close()
+	}
+	mu.Lock()
+	defer mu.Unlock()
+	return fmt.Sprintf("update=%s cfg=%d served=%d+%d/%d", upd, cfgOff, up.Accepted()-before, back, okConns)
+}
+
+var c08seq int
+
 func (c08) Exec(op string) string {
+	if op == "c08.hcoff" {
+		return recoverStr(c08HcOff)
+	}
 	f := hx.Fields(op)
 	if len(f) == 3 && f[0] == "c08.alias" {
 		n, e1 := strconv.Atoi(f[1])
@@ -335,6 +455,8 @@ func (c08) Gen(r *hx.Run) {
 	} {
 		r.Do("c08.hist "+h, true, "hist-shapes")
 	}
+	// F-08f: the health check is removed from the configuration of a running service
+	r.Do("c08.hcoff", true, "health-check-removed")
 	// F-08e: the announcement is read while endpoints are being removed
 	r.Do("c08.alias 30000 40", true, "announce-while-endpoints-change")
 	r.Do(fmt.Sprintf("c08.alias %d %d", 5000+rng.Intn(20000), 10+rng.Intn(30)), true, "announce-while-endpoints-change")
